@@ -88,18 +88,22 @@ let run_case (type p t) (m : (p, t) inst) (inp : string list) (obs : string list
   !bad
 
 let () =
-  let compared = ref 0 and mism = ref 0 and nraw = ref 0 in
+  let compared = ref 0 and mism = ref 0 and nraw = ref 0 and rawmism = ref 0 in
   iter_trace Sys.argv.(1) (fun id inp obs ->
     incr compared;
+    let israw = List.mem "T=rn" inp in
+    (* Behaviour on non-canonical prefixes is outside the property: a difference there is reported as a
+       note (the companion statement C01_noncanonical_refuted no longer describes the code), never as a
+       broken correspondence. *)
+    let report fmt =
+      if israw then (incr rawmism; Printf.printf ("RAW-NOTE " ^^ fmt)) else (incr mism; Printf.printf ("CORR-MISMATCH " ^^ fmt)) in
     if obs = ["PANIC"] then
-      (incr mism; Printf.printf "CORR-MISMATCH case=%s impl panicked, model does not\n" id)
+      report "case=%s impl panicked, model does not\n" id
     else begin
-      let bad =
-        if List.mem "T=rn" inp then (incr nraw; run_case raw inp obs) else run_case canon inp obs in
+      let bad = if israw then (incr nraw; run_case raw inp obs) else run_case canon inp obs in
       match bad with
       | None -> ()
-      | Some (i, tok, mo, io) ->
-        incr mism;
-        Printf.printf "CORR-MISMATCH case=%s token=%d(%s) model=%s impl=%s\n" id i tok mo io
+      | Some (i, tok, mo, io) -> report "case=%s token=%d(%s) model=%s impl=%s\n" id i tok mo io
     end);
-  Printf.printf "STATS compared=%d mismatches=%d observations=%d raw_cases=%d\n" !compared !mism !obs_n !nraw
+  Printf.printf "STATS compared=%d mismatches=%d observations=%d raw_cases=%d raw_mismatches=%d\n"
+    !compared !mism !obs_n !nraw !rawmism
